@@ -11,7 +11,10 @@ RULE = (
 ASSUMPTIONS = ["reference AES written from FIPS-197, self-tested against FIPS-197 appendix C and SP 800-38A vectors (and the openssl CLI when present)"]
 NSHARDS = {"quick": 16, "thorough": 32}
 BUDGET_S = {"quick": 200, "thorough": 1500}
-MIN_HITS = {"quick": {"enc": 350, "dec": 350, "ctr_carry": 48, "bad_pad": 150, "bad_len": 60}, "thorough": {"enc": 1500, "dec": 1500, "ctr_carry": 300, "bad_pad": 600, "bad_len": 300}}
+MIN_HITS = {
+    'quick': {"enc": 350, "dec": 350, "ctr_carry": 48, "bad_pad": 150, "bad_len": 60},
+    'thorough': {"enc": 9196, "dec": 9196, "ctr_carry": 384, "bad_pad": 7680, "bad_len": 2016},
+}
 MODES = {"128cbc": 16, "256cbc": 32, "128ctr": 16, "256ctr": 32}
 
 
@@ -25,7 +28,7 @@ def cases(ctx):
     t = ctx.tier == "thorough"
     k = 0
     lens = list(range(0, (301 if t else 81))) + [255, 256, 4095, 4096, 40000]
-    for rep in range(12 if t else 1):
+    for rep in range(60 if t else 1):
         for L in lens:
             for mode, kl in MODES.items():
                 k += 1
@@ -37,7 +40,7 @@ def cases(ctx):
     # CTR carries: low 64 bits end in ff..ff at every byte position, message long enough to cross it
     for pos in range(1, 9):
         for mode in ("128ctr", "256ctr"):
-            for rep in range(40 if t else 4):
+            for rep in range(200 if t else 4):
                 k += 1
                 if k % N != S:
                     continue
@@ -52,7 +55,7 @@ def cases(ctx):
     # CBC rejection cases
     for mode in ("128cbc", "256cbc"):
         for L in (0, 1, 15, 16, 17, 31, 32, 47):
-            for rep in range(40 if t else 2):
+            for rep in range(200 if t else 2):
                 k += 1
                 if k % N != S:
                     continue
